@@ -48,6 +48,8 @@ type pxRoles struct {
 	nextLike map[*types.Func]bool // next and parameterless wrappers that only return next()
 	nonNil   map[*types.Func]bool // functions whose *errors.Error result is never nil
 	sum      *pxSummaries
+	eofPow   *pxEofPower
+	powFn    *types.Func // the binding-power method of the token kind type
 }
 
 var pxRolesCache = map[*Ctx]*pxRoles{}
@@ -147,26 +149,49 @@ func pxDiscover(c *Ctx) *pxRoles {
 			fatalf("two *Parser methods call Lexer.NextToken: %s and %s", r.next.Name(), fn.Name())
 		}
 		r.next = fn
-		ast.Inspect(fd.Body, func(n ast.Node) bool {
-			as, ok := n.(*ast.AssignStmt)
-			if !ok || len(as.Lhs) != 1 || len(as.Rhs) != 1 {
+		// the store of the new token: in next itself or in a helper next hands the token to
+		// (`self.shift(token)`), where the parameter stands for the token
+		var findStore func(body *ast.BlockStmt, tok types.Object, depth int)
+		findStore = func(body *ast.BlockStmt, tok types.Object, depth int) {
+			ast.Inspect(body, func(n ast.Node) bool {
+				switch x := n.(type) {
+				case *ast.AssignStmt:
+					for i, l := range x.Lhs {
+						if len(x.Lhs) != len(x.Rhs) {
+							break
+						}
+						sel, ok := l.(*ast.SelectorExpr)
+						if !ok {
+							continue
+						}
+						fv, _ := r.info.Uses[sel.Sel].(*types.Var)
+						if fv == nil || !types.Identical(fv.Type(), r.tokenT) {
+							continue
+						}
+						if id, ok := ast.Unparen(x.Rhs[i]).(*ast.Ident); ok && r.info.Uses[id] == tok {
+							r.curF = fv
+						} else if _, ok := ast.Unparen(x.Rhs[i]).(*ast.SelectorExpr); ok {
+							r.prevF = fv
+						}
+					}
+				case *ast.CallExpr:
+					g := CalleeOf(r.info, x)
+					gd := r.decls[g]
+					if g == nil || gd == nil || gd.Body == nil || r.declPkg[g] != p || depth >= 2 {
+						return true
+					}
+					for i, a := range x.Args {
+						if id, ok := ast.Unparen(a).(*ast.Ident); ok && r.info.Uses[id] == tok {
+							if po := pxParamObj(r.info, gd, i); po != nil {
+								findStore(gd.Body, po, depth+1)
+							}
+						}
+					}
+				}
 				return true
-			}
-			sel, ok := as.Lhs[0].(*ast.SelectorExpr)
-			if !ok {
-				return true
-			}
-			fv, _ := r.info.Uses[sel.Sel].(*types.Var)
-			if fv == nil || !types.Identical(fv.Type(), r.tokenT) {
-				return true
-			}
-			if id, ok := as.Rhs[0].(*ast.Ident); ok && r.info.Uses[id] == tokVar {
-				r.curF = fv
-			} else if _, ok := as.Rhs[0].(*ast.SelectorExpr); ok {
-				r.prevF = fv
-			}
-			return true
-		})
+			})
+		}
+		findStore(fd.Body, tokVar, 0)
 	}
 	if r.next == nil || r.curF == nil {
 		fatalf("anchor unresolved: the *Parser method that calls Lexer.NextToken and stores the token (next / cursor field)")
@@ -554,7 +579,8 @@ type pxEv struct {
 	dropped  bool // error result discarded
 	expect   bool // callee is of the expect family
 	argKinds []string
-	tkind    string // pxEvTest
+	tkind    string   // pxEvTest
+	tset     []string // pxEvTest: the cursor is one of these kinds (clause of a switch listing several kinds)
 	teq      bool
 	taken    bool
 	pos      token.Pos
@@ -565,6 +591,7 @@ type pxState struct {
 	pend      map[types.Object]int // error variable -> index of the call event it holds
 	nonnil    map[types.Object]bool
 	bools     map[types.Object]bool
+	ints      map[types.Object]int64 // integer locals with a known value (binding powers of the EOF token under the end-of-input assumption)
 	consumed  bool
 	lexRemain int // lexer scenarios: number of runes left (0, 1) or -1 when unknown
 	decisions []string
@@ -572,13 +599,16 @@ type pxState struct {
 }
 
 func pxNewState() *pxState {
-	return &pxState{lexRemain: -1, pend: map[types.Object]int{}, nonnil: map[types.Object]bool{}, bools: map[types.Object]bool{}}
+	return &pxState{lexRemain: -1, pend: map[types.Object]int{}, nonnil: map[types.Object]bool{}, bools: map[types.Object]bool{}, ints: map[types.Object]int64{}}
 }
 
 func pxClone(s *pxState) *pxState {
 	n := &pxState{consumed: s.consumed, lexRemain: s.lexRemain,
 		evs: append([]pxEv(nil), s.evs...), decisions: append([]string(nil), s.decisions...), faults: append([]string(nil), s.faults...),
-		pend: make(map[types.Object]int, len(s.pend)), nonnil: make(map[types.Object]bool, len(s.nonnil)), bools: make(map[types.Object]bool, len(s.bools))}
+		pend: make(map[types.Object]int, len(s.pend)), nonnil: make(map[types.Object]bool, len(s.nonnil)), bools: make(map[types.Object]bool, len(s.bools)), ints: make(map[types.Object]int64, len(s.ints))}
+	for k, v := range s.ints {
+		n.ints[k] = v
+	}
 	for k, v := range s.pend {
 		n.pend[k] = v
 	}
@@ -610,6 +640,7 @@ func (r *pxRoles) pxWalk(body *ast.BlockStmt, init *pxState, o pxWalkOpts, exit 
 	info := o.pkg.TypesInfo
 	isLexer := o.pkg == r.lex.pkg
 	body = pxDesugar(body)
+	body = r.expandPredsBlock(info, body)
 	if isLexer {
 		if o.eof {
 			init.lexRemain = 0
@@ -682,6 +713,254 @@ func (r *pxRoles) pxWalk(body *ast.BlockStmt, init *pxState, o pxWalkOpts, exit 
 			return true
 		})
 	}
+	// evalBool decides a side-effect free boolean expression from the facts of the path:
+	// constants, boolean locals with a known value, nil tests of the lexer's rune pointers
+	// under a "runes left" assumption, kind tests of the cursor under the end-of-input
+	// assumption, nil tests of error variables already decided on the path, and calls of
+	// predicate helpers of lexer / parser (bodies made of `if … { return … }` / `return …`),
+	// evaluated recursively. known=false: not decided. einfo is the types.Info of the code e is in.
+	var evalBool func(st *pxState, einfo *types.Info, e ast.Expr, env map[types.Object]bool, depth int) (val, known bool)
+	var evalPred func(st *pxState, einfo *types.Info, call *ast.CallExpr, env map[types.Object]bool, depth int) (val, known bool)
+	lexPtrIn := func(einfo *types.Info, e ast.Expr) *types.Var {
+		sel, ok := ast.Unparen(e).(*ast.SelectorExpr)
+		if !ok {
+			return nil
+		}
+		if v, _ := einfo.Uses[sel.Sel].(*types.Var); v != nil && (v == r.lex.curF || v == r.lex.nextF) {
+			return v
+		}
+		return nil
+	}
+	isNilIn := func(einfo *types.Info, e ast.Expr) bool {
+		id, ok := ast.Unparen(e).(*ast.Ident)
+		if !ok {
+			return false
+		}
+		_, isNilObj := einfo.Uses[id].(*types.Nil)
+		return isNilObj
+	}
+	evalBool = func(st *pxState, einfo *types.Info, e ast.Expr, env map[types.Object]bool, depth int) (bool, bool) {
+		e = ast.Unparen(e)
+		if tv, ok := einfo.Types[e]; ok && tv.Value != nil && tv.Value.Kind() == constant.Bool {
+			return constant.BoolVal(tv.Value), true
+		}
+		switch x := e.(type) {
+		case *ast.Ident:
+			ob := einfo.Uses[x]
+			if v, ok := env[ob]; ok {
+				return v, true
+			}
+			if v, ok := st.bools[ob]; ok {
+				return v, true
+			}
+		case *ast.UnaryExpr:
+			if x.Op == token.NOT {
+				v, ok := evalBool(st, einfo, x.X, env, depth)
+				return !v, ok
+			}
+		case *ast.BinaryExpr:
+			switch x.Op {
+			case token.LAND, token.LOR:
+				a, aok := evalBool(st, einfo, x.X, env, depth)
+				if aok && a == (x.Op == token.LOR) {
+					return a, true // short circuit: the right operand is not evaluated
+				}
+				b, bok := evalBool(st, einfo, x.Y, env, depth)
+				if aok && bok {
+					return b, true
+				}
+				if bok && b == (x.Op == token.LOR) {
+					return b, true // unknown && false = false, unknown || true = true (operands are side-effect free)
+				}
+				return false, false
+			case token.EQL, token.NEQ:
+				a, b := x.X, x.Y
+				if isNilIn(einfo, a) {
+					a, b = b, a
+				}
+				if isNilIn(einfo, b) {
+					if v := lexPtrIn(einfo, a); v != nil && einfo == r.lex.info && st.lexRemain >= 0 {
+						return (x.Op == token.EQL) == lexIsNil(st, v), true
+					}
+					if id, ok := ast.Unparen(a).(*ast.Ident); ok {
+						if ob := einfo.Uses[id]; ob != nil && r.isErrPtr(ob.Type()) {
+							if nn, known := st.nonnil[ob]; known {
+								return (x.Op == token.NEQ) == nn, true
+							}
+						}
+					}
+					return false, false
+				}
+				if o.eof && einfo == r.info {
+					if k, eq, ok := r.kindAtom(einfo, e); ok {
+						return (k == r.eof) == eq, true
+					}
+				}
+			}
+		case *ast.CallExpr:
+			return evalPred(st, einfo, x, env, depth)
+		}
+		return false, false
+	}
+	evalPred = func(st *pxState, einfo *types.Info, call *ast.CallExpr, env map[types.Object]bool, depth int) (bool, bool) {
+		if depth > 3 {
+			return false, false
+		}
+		fn := CalleeOf(einfo, call)
+		fd := r.decls[fn]
+		if fn == nil || fd == nil || fd.Body == nil {
+			return false, false
+		}
+		sig := fn.Type().(*types.Signature)
+		if sig.Results().Len() != 1 || sig.Variadic() {
+			return false, false
+		}
+		if b, ok := sig.Results().At(0).Type().Underlying().(*types.Basic); !ok || b.Kind() != types.Bool {
+			return false, false
+		}
+		finfo := r.declPkg[fn].TypesInfo
+		// boolean parameters with a decidable argument are bound; other parameters stay unknown
+		fenv := map[types.Object]bool{}
+		for i := 0; i < sig.Params().Len() && i < len(call.Args); i++ {
+			if po := pxParamObj(finfo, fd, i); po != nil {
+				if v, ok := evalBool(st, einfo, call.Args[i], env, depth); ok {
+					fenv[po] = v
+				}
+			}
+		}
+		// the body: straight-line `if c { … return x }` / `x := <bool>` / `return x`
+		var run func(list []ast.Stmt) (val, known, returned bool)
+		run = func(list []ast.Stmt) (bool, bool, bool) {
+			for _, s := range list {
+				switch x := s.(type) {
+				case *ast.ReturnStmt:
+					if len(x.Results) != 1 {
+						return false, false, true
+					}
+					v, ok := evalBool(st, finfo, x.Results[0], fenv, depth+1)
+					return v, ok, true
+				case *ast.IfStmt:
+					if x.Init != nil {
+						as, ok := x.Init.(*ast.AssignStmt)
+						if !ok || len(as.Lhs) != 1 || len(as.Rhs) != 1 {
+							return false, false, true
+						}
+						id, ok := as.Lhs[0].(*ast.Ident)
+						if !ok {
+							return false, false, true
+						}
+						v, known := evalBool(st, finfo, as.Rhs[0], fenv, depth+1)
+						if !known {
+							return false, false, true
+						}
+						fenv[finfo.ObjectOf(id)] = v
+					}
+					c, ok := evalBool(st, finfo, x.Cond, fenv, depth+1)
+					if !ok {
+						return false, false, true
+					}
+					if c {
+						if v, known, ret := run(x.Body.List); ret {
+							return v, known, true
+						}
+					} else if x.Else != nil {
+						var list []ast.Stmt
+						switch el := x.Else.(type) {
+						case *ast.BlockStmt:
+							list = el.List
+						default:
+							list = []ast.Stmt{el}
+						}
+						if v, known, ret := run(list); ret {
+							return v, known, true
+						}
+					}
+				case *ast.AssignStmt:
+					if len(x.Lhs) != 1 || len(x.Rhs) != 1 {
+						return false, false, true
+					}
+					id, ok := x.Lhs[0].(*ast.Ident)
+					if !ok {
+						return false, false, true
+					}
+					v, known := evalBool(st, finfo, x.Rhs[0], fenv, depth+1)
+					if !known {
+						return false, false, true
+					}
+					fenv[finfo.ObjectOf(id)] = v
+				case *ast.BlockStmt:
+					if v, known, ret := run(x.List); ret {
+						return v, known, true
+					}
+				default:
+					return false, false, true
+				}
+			}
+			return false, false, false
+		}
+		v, known, ret := run(fd.Body.List)
+		if !ret {
+			return false, false
+		}
+		return v, known
+	}
+	// intOf: the known value of an integer expression (constant or tracked local)
+	intOf := func(st *pxState, e ast.Expr) (int64, bool) {
+		e = ast.Unparen(e)
+		if tv, ok := info.Types[e]; ok && tv.Value != nil && tv.Value.Kind() == constant.Int {
+			return constant.Int64Val(tv.Value)
+		}
+		if id, ok := e.(*ast.Ident); ok {
+			if v, ok := st.ints[info.Uses[id]]; ok {
+				return v, true
+			}
+		}
+		return 0, false
+	}
+	isUnsigned := func(e ast.Expr) bool {
+		t := info.TypeOf(e)
+		if t == nil {
+			return false
+		}
+		b, ok := t.Underlying().(*types.Basic)
+		return ok && b.Info()&types.IsUnsigned != 0
+	}
+	// cmpInts decides `x op y` for integers when both are known, or one is known and
+	// the other is of an unsigned type (>= 0).
+	cmpInts := func(st *pxState, b *ast.BinaryExpr) (bool, bool) {
+		x, xok := intOf(st, b.X)
+		y, yok := intOf(st, b.Y)
+		if xok && yok {
+			switch b.Op {
+			case token.GTR:
+				return x > y, true
+			case token.GEQ:
+				return x >= y, true
+			case token.LSS:
+				return x < y, true
+			case token.LEQ:
+				return x <= y, true
+			}
+			return false, false
+		}
+		if xok && x <= 0 && isUnsigned(b.Y) { // x <= 0 <= y
+			switch b.Op {
+			case token.GTR:
+				return false, true // x > y impossible
+			case token.LEQ:
+				return true, true
+			}
+		}
+		if yok && y <= 0 && isUnsigned(b.X) { // y <= 0 <= x
+			switch b.Op {
+			case token.LSS:
+				return false, true
+			case token.GEQ:
+				return true, true
+			}
+		}
+		return false, false
+	}
 	// record the calls of one statement/expression, in evaluation order.
 	// top (may be nil) is the call whose error result is bound to errVar.
 	record := func(st *pxState, n ast.Node, top *ast.CallExpr, errVar types.Object, topDropped bool) {
@@ -753,6 +1032,25 @@ func (r *pxRoles) pxWalk(body *ast.BlockStmt, init *pxState, o pxWalkOpts, exit 
 			// boolean constant / known boolean parameter
 			if v, ok := boolOf(st, cond); ok {
 				return st, v == taken
+			}
+			// predicate helper of the lexer / parser whose value is decided by the facts of the path
+			if call, ok := cond.(*ast.CallExpr); ok {
+				if v, known := evalPred(st, info, call, nil, 0); known {
+					record(st, cond, nil, nil, false)
+					if v == taken {
+						st.decisions = append(st.decisions, fmt.Sprintf("%s:%v", exprStr(cond), taken))
+					}
+					return st, v == taken
+				}
+			}
+			// ordering of integers with a known value (binding powers at end of input)
+			if b, ok := cond.(*ast.BinaryExpr); ok && (b.Op == token.GTR || b.Op == token.GEQ || b.Op == token.LSS || b.Op == token.LEQ) {
+				if v, known := cmpInts(st, b); known {
+					if v == taken {
+						st.decisions = append(st.decisions, fmt.Sprintf("%s:%v", exprStr(cond), taken))
+					}
+					return st, v == taken
+				}
 			}
 			if b, ok := cond.(*ast.BinaryExpr); ok && (b.Op == token.EQL || b.Op == token.NEQ) {
 				// err ==/!= nil
@@ -849,6 +1147,8 @@ func (r *pxRoles) pxWalk(body *ast.BlockStmt, init *pxState, o pxWalkOpts, exit 
 				} else {
 					if len(ks) == 1 {
 						st.evs = append(st.evs, pxEv{kind: pxEvTest, tkind: ks[0], teq: true, taken: true, pos: sw.Pos()})
+					} else if len(ks) > 1 && len(ks) == len(src) {
+						st.evs = append(st.evs, pxEv{kind: pxEvTest, tset: ks, teq: true, taken: true, pos: sw.Pos()})
 					}
 					st.decisions = append(st.decisions, "switch "+exprStr(sw.Tag)+": case "+strings.Join(ks, ","))
 				}
@@ -879,8 +1179,30 @@ func (r *pxRoles) pxWalk(body *ast.BlockStmt, init *pxState, o pxWalkOpts, exit 
 					record(st, x.X, nil, nil, false)
 				}
 			case *ast.AssignStmt:
+				// integer locals lose their known value when overwritten
+				for _, l := range x.Lhs {
+					if id, ok := ast.Unparen(l).(*ast.Ident); ok {
+						if ob := info.ObjectOf(id); ob != nil {
+							delete(st.ints, ob)
+						}
+					}
+				}
 				if len(x.Rhs) == 1 {
 					if call, ok := ast.Unparen(x.Rhs[0]).(*ast.CallExpr); ok {
+						// l, r := <cursor>.Kind.Prec() with the input exhausted: the powers of the EOF token
+						if o.eof && !isLexer && len(x.Lhs) == 2 {
+							if recv, isPow := r.isPowerCall(info, call); isPow && r.isCurKind(info, recv) {
+								if pw, ok := r.eofPower(); ok {
+									for i, l := range x.Lhs {
+										if id, ok := ast.Unparen(l).(*ast.Ident); ok && id.Name != "_" {
+											if ob := info.ObjectOf(id); ob != nil {
+												st.ints[ob] = [2]int64{pw.l, pw.r}[i]
+											}
+										}
+									}
+								}
+							}
+						}
 						var ev types.Object
 						dropped := false
 						if fn := CalleeOf(info, call); fn != nil {
@@ -927,7 +1249,7 @@ func (r *pxRoles) pxWalk(body *ast.BlockStmt, init *pxState, o pxWalkOpts, exit 
 								ob = info.Uses[id]
 							}
 							if ob != nil {
-								if bv, ok := boolOf(st, rhs); ok {
+								if bv, ok := evalBool(st, info, rhs, nil, 0); ok {
 									st.bools[ob] = bv
 								} else {
 									delete(st.bools, ob)
@@ -1026,4 +1348,33 @@ func (s *pxSummaries) lookup(fn *types.Func, ctx string) bool {
 		s.order = append(s.order, k)
 	}
 	return true
+}
+
+// eofPower: the binding powers TokenKind.Prec gives the end-of-input token.
+func (r *pxRoles) eofPower() (pxPair, bool) {
+	if r.eofPow == nil {
+		p := &pxEofPower{}
+		func() {
+			// the table is an optional refinement here: if it cannot be extracted the value stays unknown
+			defer func() {
+				if e := recover(); e != nil {
+					p.ok = false
+				}
+			}()
+			table, def, _, problems := r.extractPrec()
+			p.ok = len(problems) == 0
+			if v, has := table[r.eof]; has {
+				p.p = v
+			} else {
+				p.p = def
+			}
+		}()
+		r.eofPow = p
+	}
+	return r.eofPow.p, r.eofPow.ok
+}
+
+type pxEofPower struct {
+	p  pxPair
+	ok bool
 }
